@@ -355,12 +355,20 @@ OpenB ==
 Write(tp, len, h, flush) ==     \* WritePacket / WritePacketNoFlush / parts, by A
   /\ phase = "open" /\ bw # W0
   /\ LET e == WriteErr(aw, len) IN
-     /\ wres' = Append(wres, [tp |-> tp, len |-> len, h |-> h, flush |-> flush, err |-> e])
+     /\ wres' = Append(wres, [tp |-> tp, len |-> len, h |-> h, flush |-> flush, err |-> e, pad |-> 0])
      /\ IF e # "" THEN UNCHANGED <<aw, sent>>
         ELSE LET w1 == DoWrite(aw, Len(sent) + 1, len) IN
              /\ aw' = IF flush THEN DoFlush(w1) ELSE w1
              /\ sent' = Append(sent, [tp |-> tp, len |-> len, h |-> h, seq |-> aw.seq])
   /\ UNCHANGED <<phase, cfg, bw, chn, rd, log, pongs>>
+
+(* a foreign writer may put padding words between packets of a plain stream (the reader skips
+   them whether or not the stream is encrypted): Flush, then k raw words 04 00 00 00 *)
+RawPad(k) ==
+  /\ phase = "open" /\ bw # W0 /\ ~aw.enc /\ k > 0
+  /\ aw' = [DoFlush(aw) EXCEPT !.out = @ \o <<Seg("pad", -1, 4 * k)>>, !.n = @ + 4 * k]
+  /\ wres' = Append(wres, [tp |-> <<>>, len |-> 0, h |-> 0, flush |-> TRUE, err |-> "", pad |-> k])
+  /\ UNCHANGED <<phase, cfg, bw, sent, chn, rd, log, pongs>>
 
 Seal(cuts, corr) ==             \* final Flush, close; the channel's choices are fixed
   /\ phase = "open" /\ bw # W0
@@ -407,8 +415,9 @@ PktEnd(i) ==        \* stream offset of the last byte of packet i (CRC and align
       F(j, base, last) == IF j > Len(aw.out) THEN last
                           ELSE F(j + 1, base + aw.out[j][3], IF aw.out[j][2] = i THEN base + aw.out[j][3] ELSE last)
   IN F(1, 0, 0)
-ProtocolError == \E i \in 3..Len(sent) : \/ sent[i].tp = PongType
-                                         \/ sent[i].tp = PingType /\ sent[i].len # PingBody
+ProtocolError == \/ \E i \in 3..Len(sent) : \/ sent[i].tp = PongType
+                                            \/ sent[i].tp = PingType /\ sent[i].len # PingBody
+                 \/ \E j \in 1..Len(aw.out) : aw.out[j][1] = "pad" /\ aw.out[j][3] >= 4 * MaxPadWords
 
 (* the stepwise handshake equals the closed forms used by trace validation *)
 HandshakeClosedForm ==
@@ -446,6 +455,6 @@ NoUnknown == \A j \in 1..Len(log) : log[j].e # "unknown"
 (* writer facts the reader relies on *)
 WriterShape ==
   /\ aw.enc => (aw.tail = 0 => (aw.n - aw.encFrom) % Block = 0)
-  /\ \A j \in 1..Len(aw.out) : aw.out[j][1] = "pad" => aw.out[j][3] \in {4, 8, 12}   \* < MaxPadWords words
+  /\ \A j \in 1..Len(aw.out) : aw.out[j][1] = "pad" /\ aw.out[j][2] = 0 => aw.out[j][3] \in {4, 8, 12}   \* < MaxPadWords words
   /\ aw.seq = StartSeq + Len(sent)
 =============================================================================
